@@ -239,7 +239,7 @@ def workload(tier, seed, scale=1.0):
         nb = 4 * ((bits + 31) // 32)
         for tail in ('z', 'c', 's7', 's%d' % rnd.randrange(1 << 20)):
             add('below', b'', tail, [b], ('bound', bits % 64))
-            for nrej in (1, 2, 5):
+            for nrej in (1, 2, 5, 31, 32, 33, 64, 200):
                 # candidates equal to all-ones (>= bound unless bound = 2^bits) force rejections
                 script = b'\xff' * (nb * nrej)
                 add('below', script, tail, [b], ('bound-rej', bits % 64, nrej))
